@@ -264,9 +264,6 @@ Proof.
     rewrite Hr. cbn [advanced gr_of]. rewrite (instant_add_ms_val _ _ _ Hn). reflexivity.
 Qed.
 
-Lemma top_point_not_send' st p : top_point st p -> not_send p.
-Proof. apply top_point_not_send. Qed.
-
 Lemma key_step_facts ms l e evs rp s' :
   Inv L ms -> Inv L l -> aeq ms l -> step l e = (evs, rp, s') ->
   exists ms', step ms e = (evs, rp, ms') /\ Inv L ms' /\ Inv L s' /\ aeq ms' s'
